@@ -3,6 +3,7 @@
 package internal
 
 import (
+	"runtime"
 	"context"
 	"errors"
 	"fmt"
@@ -40,7 +41,7 @@ func newVStore(tr *vtrace, size int64, doorkeeper bool, start int64) *vstore {
 	v := &vstore{tr: tr, now: start, shadow: map[int]int{}, shadowExp: map[int]int64{}, gen: map[int]int{}, notifKeys: map[string]int{}}
 	vsetNow(start)
 	vsetRand(0)
-	v.s = vnewStore(&StoreOptions[int, int]{MaxSize: size, Doorkeeper: doorkeeper,
+	v.s = vnewStore(&StoreOptions[int, int]{MaxSize: size, Doorkeeper: doorkeeper, EntryPool: vpoolMode,
 		Listener: func(k, val int, reason RemoveReason) {
 			v.notes = append(v.notes, i64(int64(k)), i64(int64(val)), i64(int64(reason)))
 			v.notified++
@@ -594,6 +595,26 @@ func vstoreCase(tr *vtrace, r *vrng, doorkeeper, loading, focus bool) {
 	v.views()
 	v.rng()
 	v.dump()
+}
+
+// the entry-pool configuration (outside the store model: the README documents that the pool can misapply policy events,
+// so exact accounting is not claimed for it).  The same generated histories - overtaking deliveries, ticks after the
+// deadlines, stale wheel visits - are run with the pool on, on one P so that sync.Pool hands recycled entries back
+// promptly; only the implementation-side monitors of C01 are read from this trace: a Get / loading Get / Range never
+// yields a value that was not the latest write of that key.
+var vpoolMode bool
+
+func TestVerifStorePool(t *testing.T) {
+	tr := vopen(t, "storepool")
+	defer tr.close()
+	vpoolMode = true
+	defer func() { vpoolMode = false }()
+	defer runtime.GOMAXPROCS(runtime.GOMAXPROCS(1))
+	r := &vrng{s: vseed()*49979687 + 131}
+	n := vscale(300, 6000)
+	for c := 0; c < n; c++ {
+		vstoreCase(tr, r, c%4 == 1, c%4 >= 2, false)
+	}
 }
 
 func TestVerifStore(t *testing.T) {
